@@ -76,8 +76,8 @@ func init() {
 	propSpecs = []*PropSpec{
 		{
 			ID:          "C01",
-			Rules:       []RuleUse{use("R-DISPATCH", "v5"), use("R-TOKEN", "v5"), use("R-TOKTAB", "v5"), use("R-REPLACE", "v5"), use("R-MOVE", "v5"), use("R-COPYISO", "v5"), use("R-TYPESTATE", "v5")},
-			Explanation: "Decided for the v5 body: R-DISPATCH (all six RFC 6902 operations reach the handler with that operation's container effects; validator table = RFC 6902 §4; verdict cannot be bypassed), R-TOKEN + R-TOKTAB (every reference token obtained by splitting a path is decoded exactly once, by a decoder whose table and order are RFC 6901's, on every route to a member lookup, insertion or removal), R-REPLACE (replace requires the target to exist), R-MOVE (move = get, remove of the same container/key, destination resolved after the removal, add of that same value), R-COPYISO (copy inserts a fresh deep duplicate, never an alias), R-TYPESTATE (a null root is held as a nil container that every later operation rejects instead of dereferencing).",
+			Rules:       []RuleUse{use("R-DISPATCH", "v5"), use("R-TOKEN", "v5"), use("R-TOKTAB", "v5"), use("R-REPLACE", "v5"), use("R-MOVE", "v5"), use("R-COPYISO", "v5"), use("R-TYPESTATE", "v5"), use("R-SUCCESS", "v5")},
+			Explanation: "Decided for the v5 body: R-DISPATCH (all six RFC 6902 operations reach the handler with that operation's container effects; validator table = RFC 6902 §4; verdict cannot be bypassed), R-TOKEN + R-TOKTAB (every reference token obtained by splitting a path is decoded exactly once, by a decoder whose table and order are RFC 6901's, on every route to a member lookup, insertion or removal), R-REPLACE (replace requires the target to exist), R-MOVE (move = get, remove of the same container/key, destination resolved after the removal, add of that same value), R-COPYISO (copy inserts a fresh deep duplicate, never an alias), R-TYPESTATE (a null root is held as a nil container that every later operation rejects instead of dereferencing). R-SUCCESS (every handler reports success only after performing its operation).",
 			NotDecided:  "that the resulting values equal the RFC 6902 result (value-level: needs the contents of the lazily parsed byte slices); the null-equivalence clause (add null then test null); index semantics beyond range safety.",
 			Trusted:     commonTrusted, Assumptions: commonAssumptions,
 		},
@@ -125,8 +125,8 @@ func init() {
 		},
 		{
 			ID:          "C08",
-			Rules:       []RuleUse{use("R-RETSHAPE", "v5"), use("R-ERRCHAIN", "v5"), {Rule: "R-COPYLIMIT", Bodies: []string{"v5"}, KeyHas: []string{"(iii)", "(iv)"}}},
-			Explanation: "Decided for the v5 body: R-RETSHAPE (every return of the Apply family and of the functions whose result tuples they pass through has a nil document or a nil error; in the operation loop every handler's error is tested before the back edge and the non-nil edge returns (nil, that error), so no later operation runs after the first failure), R-ERRCHAIN (error identity over every error return of the six handlers and the two containers: ErrTestFailed is produced only by the test handler, by each of its comparison-verdict returns and by none of its lookup-failure returns; a test against an absent member reaches the comparison; an unreachable parent yields ErrMissing in all six handlers; an absent member yields ErrMissing in partialDoc.get/remove and every handler wraps (%w) the container's error or ErrMissing; *AccumulatedCopySizeError comes only from its constructor, called only by the copy handler), R-COPYLIMIT (iii,iv) (that error is returned exactly on the over-limit edge).",
+			Rules:       []RuleUse{use("R-RETSHAPE", "v5"), use("R-ERRCHAIN", "v5"), {Rule: "R-COPYLIMIT", Bodies: []string{"v5"}, KeyHas: []string{"(iii)", "(iv)"}}, use("R-SUCCESS", "v5")},
+			Explanation: "Decided for the v5 body: R-RETSHAPE (every return of the Apply family and of the functions whose result tuples they pass through has a nil document or a nil error; in the operation loop every handler's error is tested before the back edge and the non-nil edge returns (nil, that error), so no later operation runs after the first failure), R-ERRCHAIN (error identity over every error return of the six handlers and the two containers: ErrTestFailed is produced only by the test handler, by each of its comparison-verdict returns and by none of its lookup-failure returns; a test against an absent member reaches the comparison; an unreachable parent yields ErrMissing in all six handlers; an absent member yields ErrMissing in partialDoc.get/remove and every handler wraps (%w) the container's error or ErrMissing; *AccumulatedCopySizeError comes only from its constructor, called only by the copy handler), R-COPYLIMIT (iii,iv) (that error is returned exactly on the over-limit edge). R-SUCCESS (a handler returns nil only after its container effect — add/set/remove, the root replacement, the comparison for test — or through the AllowMissingPathOnRemove skip: an inapplicable operation cannot be silently accepted, so the first failing operation really ends the patch).",
 			NotDecided:  "that a patch whose operations all succeed never errors (the final marshal could fail); the 'exactly when' direction for ErrMissing beyond the 'holds when' clauses the property states.",
 			Trusted:     commonTrusted, Assumptions: commonAssumptions,
 		},
@@ -195,8 +195,8 @@ func init() {
 		},
 		{
 			ID:          "C18",
-			Rules:       []RuleUse{use("R-DISPATCH", "legacy"), use("R-TOKEN", "legacy"), use("R-TOKTAB", "legacy"), use("R-REPLACE", "legacy"), use("R-MOVE", "legacy"), use("R-COPYISO", "legacy"), {Rule: "R-NIL", Bodies: []string{"legacy"}, KeyHas: []string{"(Patch)", "(*partial", "findObject", "(*lazyNode)", "deepCopy", "newLazyNode", "(Operation)"}}, use("R-RAW", "legacy"), use("R-STALERAW", "legacy"), use("R-RETSHAPE", "legacy"), use("R-ERRCHAIN", "legacy"), {Rule: "R-ABSENT", Bodies: []string{"legacy"}, KeyHas: []string{"(*partialDoc)", ".equal"}}, use("R-ROOTDISPATCH", "legacy"), use("R-WS", "legacy")},
-			Explanation: "Decided on the legacy body (which no baseline test compiles): R-DISPATCH (a) (six kinds reach their handlers, unknown kind is an error), R-TOKEN + R-TOKTAB (reference tokens decoded exactly once, RFC 6901 table), R-REPLACE, R-MOVE, R-COPYISO, R-NIL + R-RAW + R-STALERAW (no nil-node or nil-raw dereference), R-RETSHAPE (no document with an error; first failure ends the loop), R-ERRCHAIN (a failed test yields ErrTestFailed and nothing else does; unreachable parents and absent members yield ErrMissing), R-ABSENT (remove and equal distinguish absent from null by comma-ok; get's v4 behaviour is a reviewed exception), R-ROOTDISPATCH + R-WS (the root kind is decided after skipping all JSON whitespace).",
+			Rules:       []RuleUse{use("R-DISPATCH", "legacy"), use("R-TOKEN", "legacy"), use("R-TOKTAB", "legacy"), use("R-REPLACE", "legacy"), use("R-MOVE", "legacy"), use("R-COPYISO", "legacy"), {Rule: "R-NIL", Bodies: []string{"legacy"}, KeyHas: []string{"(Patch)", "(*partial", "findObject", "(*lazyNode)", "deepCopy", "newLazyNode", "(Operation)"}}, use("R-RAW", "legacy"), use("R-STALERAW", "legacy"), use("R-RETSHAPE", "legacy"), use("R-ERRCHAIN", "legacy"), {Rule: "R-ABSENT", Bodies: []string{"legacy"}, KeyHas: []string{"(*partialDoc)", ".equal"}}, use("R-ROOTDISPATCH", "legacy"), use("R-WS", "legacy"), use("R-SUCCESS", "legacy")},
+			Explanation: "Decided on the legacy body (which no baseline test compiles): R-DISPATCH (a) (six kinds reach their handlers, unknown kind is an error), R-TOKEN + R-TOKTAB (reference tokens decoded exactly once, RFC 6901 table), R-REPLACE, R-MOVE, R-COPYISO, R-NIL + R-RAW + R-STALERAW (no nil-node or nil-raw dereference), R-RETSHAPE (no document with an error; first failure ends the loop), R-ERRCHAIN (a failed test yields ErrTestFailed and nothing else does; unreachable parents and absent members yield ErrMissing), R-ABSENT (remove and equal distinguish absent from null by comma-ok; get's v4 behaviour is a reviewed exception), R-ROOTDISPATCH + R-WS (the root kind is decided after skipping all JSON whitespace). R-SUCCESS (legacy handlers report success only after performing their operation).",
 			NotDecided:  "value-level RFC 6902 equivalence.",
 			Trusted:     commonTrusted, Assumptions: commonAssumptions,
 		},
